@@ -5,6 +5,7 @@ CONSTANTS
   PlaceholderTypedAsCookie = FALSE
   UidChecked = TRUE
   AdWhole = TRUE
+  Hardened = TRUE
   StopAtAuth = FALSE
   CtLenExact = TRUE
   LenChoices <- LenChoicesGen
